@@ -84,6 +84,7 @@ def _case(draw, tier):
             "fmt": draw(st.sampled_from(["tsv", "tsv", "parquet"])),
             "extra_levels": draw(st.sampled_from([[], [], ["PeptideGroup"], ["ModifiedPeptide", "PeptideGroup"], ["Precursor"]])),
             "reuse_proteins": draw(st.sampled_from([False, True])),
+            "lower": draw(st.sampled_from([False, False, True])),
             "direct_index": draw(st.sampled_from(["default", "sorted", "reversed", "offset"]))}
 
 
@@ -329,8 +330,10 @@ def check(case):
             except Exception:  # noqa: BLE001  (e.g. no unique peptide in that half: outside the domain, and not the observed run)
                 pass
         with config_inject.chunk_sizes(confidence=case.get("conf_chunk")):
-            guarded(mokapot.assign_confidence, [ds], max_workers=1, scores=[np.array(scores, dtype=float)], descs=[True],
-                    eval_fdr=0.05, dest_dir=out, prefixes=[None], decoys=True, proteins=prot, peps_algorithm="verif_stub",
+            # a lower-is-better score (e.g. an E-value): the same analysis with every score negated and descs=[False]
+            lower = bool(case.get("lower"))
+            guarded(mokapot.assign_confidence, [ds], max_workers=1, scores=[np.array(scores, dtype=float) * (-1.0 if lower else 1.0)],
+                    descs=[not lower], eval_fdr=0.05, dest_dir=out, prefixes=[None], decoys=True, proteins=prot, peps_algorithm="verif_stub",
                     sig="assign_confidence")  # every observed peptide is in the database: 'could not be mapped' errors are violations
         # the database description is the same object for every later file / call: a roll-up must not write into it
         after = (dict(prot.peptide_map), dict(prot.shared_peptides), dict(prot.protein_map))
@@ -342,6 +345,9 @@ def check(case):
         require(tf.exists() and dfp.exists(), "protein-files", f"{sorted(p.name for p in out.iterdir())}")
         got_t = pd.read_csv(tf, sep="\t", float_precision="round_trip")
         got_d = pd.read_csv(dfp, sep="\t", float_precision="round_trip")
+        if lower:
+            # reported in the caller's orientation; the reference below works with higher-is-better values
+            got_t["score"], got_d["score"] = -got_t["score"], -got_d["score"]
     # ---- reference ------------------------------------------------------------------------
     expected = {}
     shared_seen = False
@@ -430,6 +436,8 @@ def check(case):
     classes = [case["route"], case.get("fmt", "tsv")]
     if ikind != "default":
         classes.append("direct-call-index-" + ikind)
+    if case.get("lower"):
+        classes.append("lower-is-better-scores")
     if case.get("reuse_proteins") and n >= 4:
         classes.append("proteins-object-served-another-table-before")
     if shared_seen:
